@@ -32,6 +32,7 @@ inductive Case
 inductive Resp
   | ok | okcert          -- well-formed response without / with a certificate
   | zero                 -- zero-length message (decodes to an empty response)
+  | limit                -- well-formed response of exactly the maximal size
   | garbage | oversize   -- undecodable body / length prefix above the limit
   | cut (k len : Nat)    -- the first k bytes of a well-formed response of len bytes, then EOF
   | never                -- nothing until the 10 s time-out
@@ -64,6 +65,7 @@ def respCert : Resp → Option Bool
   | .ok => some false
   | .okcert => some true
   | .zero => some false
+  | .limit => some false
   | .garbage => none
   | .oversize => none
   | .cut k len => if k < len then none else some false
